@@ -258,6 +258,9 @@ func init() {
 		},
 		"runtime.SetFinalizer": nop,
 		"runtime.Goexit": func(st *State, _ *frame, _ *ssa.Function, a []Value) Value {
+			if st.sch.on && st.sch.cur != 0 {
+				panic(goexitUnwind{})
+			}
 			st.end("goexit", "")
 			return nil
 		},
